@@ -24,12 +24,35 @@ def comprehension(interp, xs, gens, i, child, emit):
     raise Unsupported('comprehension over symbolic-length sequence must be a plain list comprehension')
 
 
+def copy(xs, mutable=True):
+    """`list(xs)` / a snapshot of xs: same elements (the very same element objects), own identity.
+    A *mutable* copy is a cell: append / extend / insert replace its contents in place (see `method`)."""
+    c = SList(xs.length, xs.elem, xs.uid)
+    c.cache = xs.cache
+    c.parts = list(xs.parts) if xs.parts is not None else [('base', xs)]
+    c.immutable = not mutable
+    return c
+
+
+def frozen(v):
+    """operands captured by a derived sequence must not change afterwards: snapshot mutable ones"""
+    if isinstance(v, SList) and not v.immutable:
+        return copy(v, mutable=False)
+    return v
+
+
+def _replace_contents(xs, new):
+    xs.length, xs.elem, xs.uid, xs.cache, xs.parts = new.length, new.elem, new.uid, new.cache, new.parts
+    xs.aux = {}        # measures (pyvc.texts) described the old contents; joins are recomposed from `parts`
+
+
 def as_slist(interp, src):
     """SList view of a symbolic iterable: SList itself, the rest of an SIter (which is consumed), or an
     enumerate() of one of these."""
     if isinstance(src, SList):
         return src
     if isinstance(src, models.SIter):
+        # (an eager generator-by-contract is consumed completely here: fine)
         rest = slice_(interp, src.xs, slice(src.pos, None, None)) if not (isinstance(src.pos, int) and src.pos == 0) \
             else src.xs
         src.pos = wrap(src.xs.length)
@@ -49,6 +72,7 @@ def as_slist(interp, src):
 def map_comprehension(interp, node, frame, xs):
     """ListComp / GeneratorExp node with a single generator over a symbolic sequence and no conditions."""
     from .interp import Frame, PyRaise, _comp_info
+    xs = frozen(xs)
     g = node.generators[0]
     st = interp.st
     xs = as_slist(interp, xs)
@@ -81,6 +105,7 @@ def slice_(interp, xs, sl):
     st = interp.st
     if sl.step is not None and sl.step != 1:
         raise Unsupported('slice step on symbolic sequence')
+    xs = frozen(xs)
     n = xs.length
 
     def norm(v, default):
@@ -105,6 +130,11 @@ def slice_(interp, xs, sl):
 def concat(interp, a, b):
     """a + b where at least one is an SList; the other may be a concrete list."""
     st = interp.st
+    a, b = frozen(a), frozen(b)
+    if not isinstance(a, SList):
+        a = list(a)
+    if not isinstance(b, SList):
+        b = list(b)
 
     def length(v):
         return v.length if isinstance(v, SList) else z3.IntVal(len(v))
@@ -123,7 +153,16 @@ def concat(interp, a, b):
             return get(interp2, a, idx_term)
         return get(interp2, b, z3.simplify(idx_term - la))
 
-    return SList(z3.simplify(la + lb), elem, uid)
+    out = SList(z3.simplify(la + lb), elem, uid)
+    out.parts = parts_of(a) + parts_of(b)
+    return out
+
+
+def parts_of(v):
+    """Structural normal form of a (concatenated) sequence: pieces in order."""
+    if isinstance(v, SList):
+        return list(v.parts) if v.parts is not None else [('base', v)]
+    return [('elem', x) for x in v]
 
 
 def binop(interp, opcls, a, b):
@@ -154,17 +193,39 @@ def contains(interp, xs, x):
 def method(interp, xs, name, args, kwargs):
     from .mlist import MList
     from . import mlist
-    if isinstance(xs, MList) and name in ('append', 'insert', 'pop', 'extend', 'copy', 'clear'):
+    if isinstance(xs, MList) and (name in ('append', 'insert', 'pop', 'extend', 'copy', 'clear')
+                                  or (xs.is_deque and name in ('popleft', 'appendleft'))):
         return mlist.method(interp, xs, name, args, kwargs)
+    if name in ('append', 'extend', 'insert') and not xs.immutable:
+        return _mutate_copy_cell(interp, xs, name, args)
     if name in ('append', 'insert', 'pop', 'extend', 'clear', 'remove', 'sort', 'reverse'):
         raise Unsupported('mutation (%s) of an immutable symbolic sequence: declare it MListOf(...)' % name)
     if name == '__len__':
         return wrap(xs.length)
     if name == 'copy':
-        return xs
+        return copy(xs)
     if name == '__iter__':
         return models.SIter(xs, 0)
     raise Unsupported('method %s on symbolic-length sequence' % name)
+
+
+def _mutate_copy_cell(interp, xs, name, args):
+    """append / extend / insert(0, .) on a mutable copy made by list(xs) (elements of any kind, e.g. opaque
+    objects): the cell's contents are replaced by the concatenation; aliases see the same object."""
+    snap = copy(xs, mutable=False)
+    if name == 'append':
+        new = concat(interp, snap, [args[0]])
+    elif name == 'extend':
+        other = args[0]
+        if isinstance(other, (SOpt, SChoice)):
+            other = interp.resolve(other)
+        new = concat(interp, snap, other if isinstance(other, SList) else list(interp.iterate(other)))
+    else:
+        if args[0] != 0 or isinstance(args[0], bool):
+            raise Unsupported('insert into a symbolic-length sequence other than at position 0')
+        new = concat(interp, [args[1]], snap)
+    _replace_contents(xs, new)
+    return None
 
 
 class FilteredSList(SList):
@@ -304,6 +365,44 @@ def _le_lex(a, b):
     return ta <= tb
 
 
+def _elem_patterns(interp, xs, k):
+    """scalar leaf terms of the element of xs at the (bound) index k that mention k: triggers for axioms that
+    are about `the element of xs at k`"""
+    st = interp.st
+    n_pc = len(st.pc)
+    st.no_fork += 1
+    st.solver.push()
+    st.side_conditions.append([])
+    leaves = []
+    try:
+        with st.scope(z3.And(0 <= k, k < xs.length)):
+            if st.check() != z3.unsat:
+                try:
+                    e = models.slist_elem(interp, xs, k)
+                except Exception:
+                    e = None
+
+                def walk(v):
+                    if isinstance(v, (tuple, list)):
+                        for x in v:
+                            walk(x)
+                    elif isinstance(v, (SInt, SBool, SStr)):
+                        leaves.append(v.t)
+
+                walk(e)
+    finally:
+        st.no_fork -= 1
+        st.solver.pop()
+        del st.pc[n_pc:]
+        st.side_conditions.pop()
+    out = []
+    for t in leaves:
+        if z3.is_app(t) and t.num_args() > 0 and not z3.is_and(t) and models._mentions(t, k) \
+                and t.decl().kind() == z3.Z3_OP_UNINTERPRETED:
+            out.append(t)
+    return out[:1]
+
+
 def sorted_(interp, xs):
     st = interp.st
     xs = as_slist(interp, xs)
@@ -319,8 +418,13 @@ def sorted_(interp, xs):
     out.perm_fn, out.inv_fn, out.source = perm, inv, xs
     k = st.fresh_int(uid + '.k')
     rng = z3.And(0 <= k, k < n)
-    st._add(z3.ForAll([k], z3.Implies(rng, z3.And(perm(k) >= 0, perm(k) < n, inv(perm(k)) == k,
-                                                    inv(k) >= 0, inv(k) < n, perm(inv(k)) == k))))
+    st._add(z3.ForAll([k], z3.Implies(rng, z3.And(perm(k) >= 0, perm(k) < n, inv(perm(k)) == k)),
+                      patterns=[perm(k)]))
+    # "every element of the source is somewhere in the result": to be instantiated whenever an element of the
+    # source at some index is talked about (the position inv(k) in the result is not a term the goal mentions)
+    src_patterns = [inv(k)] + _elem_patterns(interp, xs, k)
+    st._add(z3.ForAll([k], z3.Implies(rng, z3.And(inv(k) >= 0, inv(k) < n, perm(inv(k)) == k)),
+                      patterns=src_patterns))
     # order (element shapes: ints / tuples of ints / strings)
     j = st.fresh_int(uid + '.j')
     n_pc = len(st.pc)
